@@ -9,14 +9,14 @@ P = {
     "coq_targets": ["Properties/C11.vo", "Run/Eval_C11.vo"],
     "theorems_module": "Properties.C11",
     "theorems": ["C11_no_boundary_shift", "C11_F4_refuted", "C11_key_deterministic", "C11_F1_refuted",
-                 "C11_key_injective", "C11_cache_transparent", "C11_nonvacuous",
+                 "C11_key_injective", "C11_cache_transparent", "C11_cache_transparent_repaired", "C11_nonvacuous",
                  "C11_cache_transparent_if_compatible", "C11_shared_key_changes_decision",
                  "C11_identical_requests_hit",
                  "C11_F2_refuted", "C11_F3_refuted", "C11_F4_history_refuted", "C11_F6_refuted", "C11_F7_refuted",
                  "C11_cc_cache_transparent", "C11_cc_F4_refuted", "C11_jf_cache_transparent", "C11_F5_refuted"],
     "streams": [{
         "name": "histories", "pkg": "./internal/rules/mechanisms", "test": "TestVerifC11",
-        "overlay": OVERLAY, "eval_module": "Run.Eval_C11", "check_term": "check",
+        "overlay": OVERLAY, "eval_module": "Run.Eval_C11", "check_term": "check fx_none",
         "n_quick": 800, "n_thorough": 12000, "shard": 56,
         "findings": {1: "C11-F1", 2: "C11-F2", 3: "C11-F3", 4: "C11-F4", 6: "C11-F6", 7: "C11-F7"},
     }, {
